@@ -13,7 +13,7 @@ assignment); the generic laws build and are audited independently.
 namespace Cherab.Props.C15Table
 open Cherab.Groups Cherab.Gen.GroupTable
 
-theorem table_all_admissible : table.all (fun d => d.admissible table) = true := by decide
+theorem table_all_admissible : table.all (fun d => d.admissible table) = true := by decide +kernel
 
 /-- every (class, attribute) descriptor generated from /repo is admissible -/
 theorem table_wf : ∀ d ∈ table, d.admissible table = true :=
